@@ -183,4 +183,24 @@ mod __verif_e2e {
             assert!(r.unwrap().is_err(), "a chunk larger than the response must be rejected");
         }
     }
+
+    /// oracle validation for C05 composition: how does the interpreter compare a BIGINT column with a DOUBLE literal?
+    #[test]
+    fn e2e_c05_int_column_vs_double_literal_semantics() {
+        use crate::planner::{BinaryOp, Column, Expr, ScalarValue};
+        let schema = Arc::new(Schema::new(vec![Field::new("c", DataType::Int64, false)]));
+        let c: ArrayRef = Arc::new(Int64Array::from(vec![0, -1, 4, 9007199254740993]));
+        let batch = RecordBatch::try_new(schema.clone(), vec![c]).unwrap();
+        for (op, lit) in [(BinaryOp::LtEq, -0.0f64), (BinaryOp::Lt, 4.5), (BinaryOp::Eq, 9007199254740992.0), (BinaryOp::GtEq, 0.0)] {
+            let e = Expr::BinaryExpr {
+                left: Box::new(Expr::Column(Column::new("c"))),
+                op,
+                right: Box::new(Expr::Literal(ScalarValue::Float64(ordered_float::OrderedFloat(lit)))),
+            };
+            match crate::physical::operators::evaluate_expr(&batch, &e) {
+                Ok(m) => eprintln!("ORACLE c {op:?} {lit:?} over [0,-1,4,2^53+1] => {:?}", m.as_any().downcast_ref::<arrow::array::BooleanArray>().unwrap().iter().collect::<Vec<_>>()),
+                Err(err) => eprintln!("ORACLE c {op:?} {lit:?} => error {err}"),
+            }
+        }
+    }
 }
